@@ -263,6 +263,7 @@ package ucfg
 
 //@ func mergeConfigMergeArr
 //@ props C01
+//@ requires opts != nil
 //@ requires to != nil && to.fields != nil && from != nil && from.fields != nil
 //@ requires base(from.fields.a) != base(to.fields.a)
 //@ requires len(to.fields.a) + len(from.fields.a) < 9223372036854775807
@@ -275,8 +276,8 @@ package ucfg
 //@ ensures [lenA] result == nil && len(old(to.fields.a)) >= len(old(from.fields.a)) ==> len(to.fields.a) == len(old(to.fields.a))
 //@ ensures [lenB] result == nil && len(old(to.fields.a)) < len(old(from.fields.a)) ==> len(to.fields.a) == len(old(from.fields.a))
 //@ ensures [merged] result == nil && len(old(from.fields.a)) <= len(old(to.fields.a)) ==> forall j int :: 0 <= j && j < len(old(from.fields.a)) ==> copyOf(to.fields.a[j], mvSpec(old(to.fields.a[j]), old(from.fields.a[j])))
-//@ ensures [merged_longerB !unproved] result == nil && len(old(from.fields.a)) > len(old(to.fields.a)) ==> forall j int :: 0 <= j && j < len(old(to.fields.a)) ==> copyOf(to.fields.a[j], mvSpec(old(to.fields.a[j]), old(from.fields.a[j])))
-//@ ensures [tailB !unproved] result == nil ==> forall j int :: 0 <= j && j < len(old(from.fields.a)) - len(old(to.fields.a)) ==> copyOf(to.fields.a[len(old(to.fields.a)) + j], old(from.fields.a[len(old(to.fields.a)) + j]))
+//@ ensures [merged_longerB] result == nil && len(old(from.fields.a)) > len(old(to.fields.a)) ==> forall j int :: 0 <= j && j < len(old(to.fields.a)) ==> copyOf(to.fields.a[j], mvSpec(old(to.fields.a[j]), old(from.fields.a[j])))
+//@ ensures [tailB] result == nil ==> forall j int :: 0 <= j && j < len(old(from.fields.a)) - len(old(to.fields.a)) ==> copyOf(to.fields.a[len(old(to.fields.a)) + j], old(from.fields.a[len(old(to.fields.a)) + j]))
 //@ ensures [tailA] result == nil ==> forall j int :: len(old(from.fields.a)) <= j && j < len(old(to.fields.a)) ==> to.fields.a[j] == old(to.fields.a[j])
 //@ loop 1 invariant 0 <= i && i <= l
 //@ loop 1 invariant to.fields == old(to.fields) && from.fields == old(from.fields) && to.fields.a == old(to.fields.a) && from.fields.a == old(from.fields.a)
@@ -310,13 +311,6 @@ package ucfg
 //@ ensures [ret] result == old(has(f.d, name))
 //@ ensures [gone] !has(f.d, name)
 //@ ensures [others] forall k string :: k != name ==> has(f.d, k) == old(has(f.d, k)) && (has(f.d, k) ==> f.d[k] == old(f.d[k]))
-
-//@ func (*fieldSet).Add
-//@ props C08
-//@ requires s != nil && s.fields != nil
-//@ modifies map(s.fields)
-//@ ensures has(s.fields, name)
-//@ ensures forall k string :: k != name ==> has(s.fields, k) == old(has(s.fields, k))
 
 //@ func (*fields).dict
 //@ props C12
@@ -390,8 +384,12 @@ package ucfg
 //@ loop 1 invariant cur != nil
 //@ loop 1 decreases len(fields)
 
-//@ func (cfgPath).GetValue
+//@ func (cfgPath).GetValue :: p, cfg, opt -> r, err
 //@ props C12
+//@ pure
+//@ ensures [naming_ok !unproved] (err == nil) == pathOk(p, cfg)
+//@ ensures [naming_val !unproved] err == nil ==> r == pathVal(p, cfg)
+//@ ensures [err_nil] err != nil ==> r == nil
 //@ requires cfg != nil && len(p.fields) >= 1
 //@ requires forall j int :: 0 <= j && j < len(p.fields) ==> p.fields[j] != nil
 //@ loop 1 invariant len(fields) >= 1
@@ -1012,3 +1010,84 @@ package ucfg
 
 //@ iface value.meta :: self -> r
 //@ pure
+
+// ---------------------------------------------------------------- C08: the set of references under evaluation
+
+// inChain(s, n): n is in s.fields or in the set of an ancestor (recursive over the parent chain, read off the
+// heap state; the chain is assumed acyclic - it is built by newFieldSet only).
+//@ func (*fieldSet).Has :: s, name -> found
+//@ props C08
+//@ requires s != nil
+//@ pure
+//@ ensures [spec] found == inChain(s, name)
+
+//@ func (*fieldSet).Add :: s, name
+//@ props C08
+//@ requires s != nil && s.fields != nil
+//@ modifies map(s.fields)
+//@ ensures [in] has(s.fields, name)
+//@ ensures [others] forall k string :: k != name ==> has(s.fields, k) == old(has(s.fields, k))
+
+//@ func (*fieldSet).AddNew :: s, name -> ok
+//@ props C08
+//@ requires s != nil && s.fields != nil
+//@ modifies map(s.fields)
+//@ ensures [fresh_iff] ok == !old(inChain(s, name))
+//@ ensures [registered] inChain(s, name)
+//@ ensures [others] forall k string :: k != name ==> has(s.fields, k) == old(has(s.fields, k))
+
+//@ func newFieldSet :: parent -> r
+//@ props C08
+//@ pure
+//@ ensures [fresh] fresh(r) && r.parent == parent && r.fields != nil && fresh(r.fields)
+//@ ensures [empty] forall k string :: !has(r.fields, k)
+
+// ---------------------------------------------------------------- C02 / C08: resolving one reference
+
+// pathOk / pathVal name the outcome of walking a path from a configuration (cfgPath.GetValue) in the heap
+// state of the resolution: assumed to be a function of (path, configuration) while one reference is resolved.
+//@ ghost func pathOk(p cfgPath, c *Config) bool
+//@ ghost func pathVal(p cfgPath, c *Config) value
+//@ ghost func pathStr(p cfgPath) string
+//@ ghost func rootOf(c *Config) *Config
+//@ ghost func cyclic(e error) bool
+
+//@ func (cfgPath).String :: p -> r
+//@ trusted
+//@ pure
+//@ ensures r == pathStr(p)
+
+//@ func raiseCyclicErr
+//@ trusted
+//@ pure
+//@ ensures result != nil && cyclic(result)
+
+//@ func cfgRoot :: cfg -> r
+//@ trusted
+//@ pure
+//@ ensures (r == nil) == (cfg == nil)
+//@ ensures r == rootOf(cfg)
+
+//@ func (*reference).resolveRef :: r, cfg, opts -> v, err
+//@ props C08 C02
+//@ requires r != nil && opts != nil && opts.activeFields != nil && opts.activeFields.fields != nil
+//@ requires len(r.Path.fields) >= 1 && forall j int :: 0 <= j && j < len(r.Path.fields) ==> r.Path.fields[j] != nil
+//@ requires forall j int :: 0 <= j && j < len(opts.env) ==> opts.env[j] != nil
+//@ modifies map(opts.activeFields.fields)
+//@ ensures [cycle @C08] old(inChain(opts.activeFields, pathStr(r.Path))) ==> v == nil && err != nil && cyclic(err)
+//@ ensures [registered @C08] inChain(opts.activeFields, pathStr(r.Path))
+//@ ensures [scope @C08] opts.activeFields == old(opts.activeFields)
+//@ ensures [nil_cfg @C02] !old(inChain(opts.activeFields, pathStr(r.Path))) && cfg == nil ==> v == nil && err != nil
+//@ ensures [root_first @C02] !old(inChain(opts.activeFields, pathStr(r.Path))) && cfg != nil && pathOk(r.Path, rootOf(cfg)) && pathVal(r.Path, rootOf(cfg)) != nil ==> err == nil && v == pathVal(r.Path, rootOf(cfg))
+//@ ensures [env_last_first @C02] !old(inChain(opts.activeFields, pathStr(r.Path))) && cfg != nil && !(pathOk(r.Path, rootOf(cfg)) && pathVal(r.Path, rootOf(cfg)) != nil) && len(opts.env) > 0 && pathOk(r.Path, rootOf(opts.env[len(opts.env) - 1])) && pathVal(r.Path, rootOf(opts.env[len(opts.env) - 1])) != nil ==> err == nil && v == pathVal(r.Path, rootOf(opts.env[len(opts.env) - 1]))
+//@ ensures [nothing_found @C02] !old(inChain(opts.activeFields, pathStr(r.Path))) && cfg != nil && !(pathOk(r.Path, rootOf(cfg)) && pathVal(r.Path, rootOf(cfg)) != nil) && (forall j int :: 0 <= j && j < len(opts.env) ==> !(pathOk(r.Path, rootOf(opts.env[j])) && pathVal(r.Path, rootOf(opts.env[j])) != nil)) ==> v == nil
+//@ loop 1 invariant 0 <= len(env) && len(env) <= len(opts.env) && base(env) == base(opts.env) && opts.env == old(opts.env) && opts.activeFields == old(opts.activeFields)
+//@ loop 1 invariant forall j int :: 0 <= j && j < len(env) ==> env[j] == opts.env[j]
+//@ loop 1 invariant forall j int :: 0 <= j && j < len(opts.env) ==> opts.env[j] != nil && opts.env[j] == old(opts.env[j])
+//@ loop 1 invariant len(env) == len(opts.env) ==> cfg == entry(cfg)
+//@ loop 1 invariant len(env) < len(opts.env) ==> entry(cfg) != nil
+//@ loop 1 invariant len(env) < len(opts.env) ==> cfg == opts.env[len(env)] && !(entry(cfg) != nil && pathOk(r.Path, rootOf(entry(cfg))) && pathVal(r.Path, rootOf(entry(cfg))) != nil)
+//@ loop 1 invariant forall j int :: len(env) < j && j < len(opts.env) ==> !(pathOk(r.Path, rootOf(opts.env[j])) && pathVal(r.Path, rootOf(opts.env[j])) != nil)
+//@ loop 1 invariant inChain(opts.activeFields, pathStr(r.Path)) && !old(inChain(opts.activeFields, pathStr(r.Path)))
+//@ loop 1 invariant r.Path == old(r.Path)
+//@ loop 1 decreases len(env)
